@@ -2,9 +2,16 @@
 package main
 
 import (
+	"bufio"
+	"bytes"
+	"encoding/json"
 	"flag"
 	"fmt"
 	"os"
+	"os/exec"
+	"runtime"
+	"strings"
+	"sync"
 	"time"
 
 	"github.com/youzan/ZanRedisDB/common"
@@ -126,12 +133,46 @@ func runC10(tier string) int {
 	return col.Finish()
 }
 
+var c07Policies = []struct {
+	name string
+	p    common.ExpirationPolicy
+	v    common.DataVersionT
+}{{"wait_compact", common.WaitCompact, common.ValueHeaderV1}, {"local_deletion", common.LocalDeletion, common.DefaultDataVer}}
+
+// runC07Shard: one (policy, family) cell in its own process (the virtual clock is one process-wide variable,
+// so the cells cannot share a process); prints its statistics and the first violation per signature.
+func runC07Shard(spec, tier string) int {
+	parts := strings.SplitN(spec, "/", 2)
+	os.Setenv("VERIF_C07_FAMILY", parts[1])
+	col := ev.NewCollector("C07", tier, "exploration")
+	dl := ev.NewDeadline(ev.EnvDur("VERIF_BUDGET", time.Minute))
+	maxLen := 3
+	if tier == "quick" {
+		maxLen = 2
+	}
+	for _, p := range c07Policies {
+		if p.name != parts[0] {
+			continue
+		}
+		st, ok := storevc.RunDeterminism(col, []string{"mem-skiplist", "pebble"}, p.name, p.p, p.v, maxLen, dl)
+		b, _ := json.Marshal(map[string]interface{}{"logs": st.Logs, "runs": st.Runs, "complete": ok})
+		fmt.Println("STATS " + string(b))
+	}
+	for _, v := range col.Violations() {
+		b, _ := json.Marshal(v)
+		fmt.Println("VIOL " + string(b))
+	}
+	return 0
+}
+
 func runC07(tier string) int {
+	if spec := os.Getenv("VERIF_C07_SHARD"); spec != "" {
+		return runC07Shard(spec, tier)
+	}
 	quick := tier == "quick"
 	col := ev.NewCollector("C07", tier, "exploration")
-	budget := ev.EnvDur("VERIF_BUDGET", map[bool]time.Duration{true: 600 * time.Second, false: 20 * time.Minute}[quick])
+	budget := ev.EnvDur("VERIF_BUDGET", map[bool]time.Duration{true: 300 * time.Second, false: 20 * time.Minute}[quick])
 	start := time.Now()
-	engines := []string{"mem-skiplist", "pebble"}
 	maxLen := 3
 	if quick {
 		maxLen = 2
@@ -139,25 +180,99 @@ func runC07(tier string) int {
 	logs, runs := 0, 0
 	exhaustive := true
 	per := map[string]interface{}{}
-	for _, p := range []struct {
-		name string
-		p    common.ExpirationPolicy
-		v    common.DataVersionT
-	}{{"wait_compact", common.WaitCompact, common.ValueHeaderV1}, {"local_deletion", common.LocalDeletion, common.DefaultDataVer}} {
-		t0 := time.Now()
-		// the first policy may use half of the budget, the second what is left
-		dl := ev.NewDeadline(budget - time.Since(start))
-		if p.name == "wait_compact" {
-			dl = ev.NewDeadline(budget / 2)
+	type cell struct {
+		pol, fam   string
+		logs, runs int
+		complete   bool
+		wall       float64
+		err        string
+	}
+	var cells []*cell
+	for _, p := range c07Policies {
+		for _, f := range storevc.Families() {
+			if only := os.Getenv("VERIF_C07_FAMILY"); only != "" && only != f.Name {
+				continue // debugging aid, never set by a registered command
+			}
+			cells = append(cells, &cell{pol: p.name, fam: f.Name})
 		}
-		st, ok := storevc.RunDeterminism(col, engines, p.name, p.p, p.v, maxLen, dl)
-		logs += st.Logs
-		runs += st.Runs
+	}
+	sem := make(chan struct{}, runtime.NumCPU())
+	var wg sync.WaitGroup
+	var mu sync.Mutex
+	for _, c := range cells {
+		wg.Add(1)
+		go func(c *cell) {
+			defer wg.Done()
+			sem <- struct{}{}
+			defer func() { <-sem }()
+			left := budget - time.Since(start)
+			if left < time.Second {
+				left = time.Second
+			}
+			t0 := time.Now()
+			cmd := exec.Command(os.Args[0], "-prop", "C07", "-tier", tier)
+			cmd.Env = append(os.Environ(), "VERIF_C07_SHARD="+c.pol+"/"+c.fam, "VERIF_BUDGET="+left.String())
+			var errb bytes.Buffer
+			cmd.Stderr = &errb
+			out, err := cmd.Output()
+			c.wall = time.Since(t0).Seconds()
+			got := false
+			sc := bufio.NewScanner(bytes.NewReader(out))
+			sc.Buffer(make([]byte, 1<<20), 16<<20)
+			for sc.Scan() {
+				l := sc.Text()
+				if strings.HasPrefix(l, "STATS ") {
+					var st struct {
+						Logs, Runs int
+						Complete   bool
+					}
+					if json.Unmarshal([]byte(l[6:]), &st) == nil {
+						c.logs, c.runs, c.complete, got = st.Logs, st.Runs, st.Complete, true
+					}
+				}
+				if strings.HasPrefix(l, "VIOL ") {
+					var v ev.Violation
+					if json.Unmarshal([]byte(l[5:]), &v) == nil {
+						mu.Lock()
+						col.Add(v)
+						mu.Unlock()
+					}
+				}
+			}
+			if err != nil || !got {
+				tail := errb.String()
+				if len(tail) > 2000 {
+					tail = tail[len(tail)-2000:]
+				}
+				c.err = fmt.Sprintf("worker %s/%s: %v\n%s", c.pol, c.fam, err, tail)
+			}
+		}(c)
+	}
+	wg.Wait()
+	for _, p := range c07Policies {
+		pl, pr, ok, wall := 0, 0, true, 0.0
+		fams := map[string]interface{}{}
+		for _, c := range cells {
+			if c.pol != p.name {
+				continue
+			}
+			if c.err != "" {
+				fmt.Println("INFRA:", c.err)
+				return 2
+			}
+			pl += c.logs
+			pr += c.runs
+			ok = ok && c.complete
+			wall += c.wall
+			fams[c.fam] = map[string]interface{}{"logs": c.logs, "runs": c.runs, "complete": c.complete, "wall_s": c.wall}
+		}
+		logs += pl
+		runs += pr
 		if !ok {
 			exhaustive = false
 		}
-		per[p.name] = map[string]interface{}{"logs": st.Logs, "runs": st.Runs, "max_len": maxLen, "complete": ok, "wall_s": time.Since(t0).Seconds()}
-		fmt.Printf("[C07] %s: logs=%d runs=%d complete=%v %.1fs\n", p.name, st.Logs, st.Runs, ok, time.Since(t0).Seconds())
+		per[p.name] = map[string]interface{}{"logs": pl, "runs": pr, "max_len": maxLen, "complete": ok, "cpu_s": wall, "families": fams}
+		fmt.Printf("[C07] %s: logs=%d runs=%d complete=%v (one worker process per family, %.1f s of work)\n", p.name, pl, pr, ok, wall)
 	}
 	col.Set("evaluations", runs)
 	col.Set("distinct_nontrivial", logs)
